@@ -799,6 +799,20 @@ def generate(prop, rng, tier):
             yield f"NodeEq/{c['stratum']}", c
             continue
         c = gen_case(rng, prop, cls=cls, fault_rate=fr, invalid_rate=ir)
+        if prop != "C20" and c["cls"] == "Node" and rng.random() < 0.12:
+            # the same histories (invalid arguments and failing hooks included) on a user subclass whose nodes
+            # compare and hash by name: the library's links work on identity, sibling names are unique, so
+            # nothing may change.  Set containers are given as lists (a set of equal nodes collapses before
+            # the library sees it).
+            c["eq"] = True
+            c["stratum"] = "eq-" + c["stratum"]
+            for o in c["ops"]:
+                if o[0] == "SetChildren" and o[2] == "set":
+                    o[2] = "list"
+                if o[0] == "Construct" and o[3] == "set":
+                    o[3] = "list"
+            yield f"NodeEq/{c['stratum']}", c
+            continue
         yield f"{c['cls']}/{c['stratum']}", c
 
 
